@@ -50,6 +50,35 @@ func Run(ctx *common.Ctx) {
 			return "QOther"
 		}
 	}
+	// enumerated block (does not depend on the random seed): every qualified write (setq / defvar x one / two
+	// colons) on every kind of target variable of package a (private with a value, exported with a value,
+	// exported without value, private without value, absent, inherited from c) from another current package
+	// and from a itself; b uses a.  Added after seeded change C13-13 was missed.
+	var enum [][][5]int
+	for target := 0; target < 6; target++ {
+		for curp := 0; curp < 2; curp++ {
+			for w := 100; w < 104; w++ {
+				st := func(p, q, x int) [5]int { return [5]int{p, q, 0, 0, x} }
+				var h [][5]int
+				switch target {
+				case 0:
+					h = append(h, st(0, 0, 65))
+				case 1:
+					h = append(h, st(0, 0, 65), st(0, 0, 40))
+				case 2:
+					h = append(h, st(0, 0, 40))
+				case 3:
+					h = append(h, st(0, 0, 40), st(0, 0, 53))
+				case 4:
+				default:
+					h = append(h, st(2, 0, 5), st(0, 0, 65), st(2, 0, 40), st(0, 2, 20))
+				}
+				h = append(h, st(1, 0, 20), st(curp, 0, 5), st(0, 0, w), st(1-curp, 0, 5), st(0, 0, 65))
+				enum = append(enum, h)
+			}
+		}
+	}
+	ncases += len(enum)
 	for k := 0; len(terms) < ncases; k++ {
 		pk := []string{fmt.Sprintf("vq%da", k), fmt.Sprintf("vq%db", k), fmt.Sprintf("vq%dc", k)}
 		slip.CurrentPackage = orig
@@ -99,8 +128,11 @@ func Run(ctx *common.Ctx) {
 		focus := ctx.Rng.Chance(70)
 		fv, ff, pe := ctx.Rng.Intn(2), ctx.Rng.Intn(2), ctx.Rng.Intn(3)
 		draw := func() (p, q, vn, fn, x int) {
-			p, q, vn, fn, x = ctx.Rng.Intn(3), ctx.Rng.Intn(3), ctx.Rng.Intn(2), ctx.Rng.Intn(2), ctx.Rng.Intn(100)
+			p, q, vn, fn, x = ctx.Rng.Intn(3), ctx.Rng.Intn(3), ctx.Rng.Intn(2), ctx.Rng.Intn(2), ctx.Rng.Intn(108)
 			if focus {
+				if x >= 100 && ctx.Rng.Chance(60) { // qualified writes: mostly into the exporter
+					p = pe
+				}
 				if ctx.Rng.Chance(85) {
 					vn = fv
 				}
@@ -185,8 +217,13 @@ func Run(ctx *common.Ctx) {
 			}
 			L = len(forced)
 		}
+		if k < len(enum) {
+			forced = enum[k]
+			L = len(forced)
+			ctx.Hist("enumerated-qualified-write")
+		}
 		for i := 0; i < L; i++ {
-			var lisp, g string
+			var lisp, g, xg string
 			p, q, vn, fn, x := draw()
 			val++
 			if i < len(forced) {
@@ -208,8 +245,9 @@ func Run(ctx *common.Ctx) {
 					case x < 90:
 					case x < 95:
 						ok = visV(cur, vn)
-					default:
+					case x < 100:
 						ok = visF(cur, 2+fn)
+					default:
 					}
 					if ok {
 						break
@@ -257,9 +295,27 @@ func Run(ctx *common.Ctx) {
 			case x < 95:
 				lisp, g = fmt.Sprintf("(makunbound '%s)", vnames[vn]), fmt.Sprintf("OMakunbound %d%%N", vn)
 				ownV[cur][vn], expV[cur][vn] = false, false
-			default:
+			case x < 100:
 				lisp, g = fmt.Sprintf("(fmakunbound '%s)", fnames[fn]), fmt.Sprintf("OFmakunbound %d%%N", 2+fn)
 				ownF[cur][2+fn], expF[cur][2+fn] = false, false
+			default:
+				// qualified writes: 100 (setq p:n v) 101 (setq p::n v) 102 (defvar p:n v) 103 (defvar p::n v);
+				// 104..107 the same again (random draw only)
+				w := (x - 100) % 4
+				colons, priv := ":", "false"
+				if w%2 == 1 {
+					colons, priv = "::", "true"
+				}
+				form, ctor := "setq", "XSetqQ"
+				if w >= 2 {
+					form, ctor = "defvar", "XDefvarQ"
+				}
+				lisp = fmt.Sprintf("(%s %s%s%s %d)", form, pk[p], colons, vnames[vn], val)
+				xg = fmt.Sprintf("%s %d%%N %d%%N %d %s", ctor, p, vn, val, priv)
+				g = ctor + colons
+			}
+			if xg == "" {
+				xg = "XB (" + g + ")"
 			}
 			ctx.Hist("op:" + strings.SplitN(g, " ", 2)[0])
 			rec := opRec{Lisp: lisp}
@@ -297,7 +353,7 @@ func Run(ctx *common.Ctx) {
 			}
 			rec.Obs = append(rec.Obs, strings.Join(obs, " | "))
 			recs = append(recs, rec)
-			gops = append(gops, g)
+			gops = append(gops, xg)
 			gobs = append(gobs, common.GList(obs))
 		}
 		slip.CurrentPackage = orig
@@ -316,10 +372,11 @@ func Run(ctx *common.Ctx) {
 		}
 	}
 	ctx.Meta.DistinctNontrivial = len(distinct)
-	ctx.Meta.Rule = "random histories (2..12 ops, thorough 2..14; 70% focused on one variable, one function and one exporting package; 35% start with one of 18 scripted openings of 7..14 steps, one per repaired finding of C13: unuse, private setq, use over own names, (f)makunbound of exported and of inherited names, export before definition, defun on inherited names, unexport in a user, two exporters of one name, use chains) over 3 fresh packages x {in-package, use-package, unuse-package, export, unexport, setq, defvar, defun, makunbound, fmakunbound} x 2 variable and 2 function names; after every step 84 resolutions (3 current packages x 4 names x {plain, p:, p::} x 3 packages); distinct = distinct op sequences (all have >= 2 ops)"
+	ctx.Meta.Rule = "48 enumerated histories (seed-independent: {setq, defvar} x {p:n, p::n} x 6 kinds of target variable x current package other / same) + random histories (2..12 ops, thorough 2..14; 70% focused on one variable, one function and one exporting package; 35% start with one of 18 scripted openings of 7..14 steps, one per repaired finding of C13: unuse, private setq, use over own names, (f)makunbound of exported and of inherited names, export before definition, defun on inherited names, unexport in a user, two exporters of one name, use chains) over 3 fresh packages x {in-package, use-package, unuse-package, export, unexport, setq, defvar, defun, makunbound, fmakunbound, and 7% qualified writes (setq|defvar p:n|p::n)} x 2 variable and 2 function names; after every step 84 resolutions (3 current packages x 4 names x {plain, p:, p::} x 3 packages); distinct = distinct op sequences (all have >= 2 ops)"
 	header := "From C13 Require Import Model Spec Corr.\nOpen Scope Z_scope.\n"
-	footer := "Definition res := Eval vm_compute in check_all cases.\nPrint res.\n" +
-		"Definition gcount := Eval vm_compute in guard_count cases.\nPrint gcount.\n"
-	ctx.WriteShards("cases", header, "case", footer, terms, descs, 16)
+	footer := "Definition res := Eval vm_compute in xcheck_all cases.\nPrint res.\n" +
+		"Definition gcount := Eval vm_compute in xguard_count cases.\nPrint gcount.\n" +
+		"Definition qualcount := Eval vm_compute in xqual_count cases.\nPrint qualcount.\n"
+	ctx.WriteShards("cases", header, "xcase", footer, terms, descs, 16)
 	ctx.ReplayKnownLisp()
 }
